@@ -63,7 +63,7 @@ func (t *T) UnifyVariants() *T {
 			narrowedUntypedUnion = variantT.DeepCopy()
 		}
 
-		if !narrowedUntypedUnion.IsUnknownType() && isNarrowed {
+		if narrowedUntypedUnion != nil && !narrowedUntypedUnion.IsUnknownType() && isNarrowed {
 			return narrowedUntypedUnion
 		}
 	}
